@@ -84,6 +84,7 @@ def build_state(resources, pk=False, temporal_prop=None, reverse_row_keys=False)
 
 
 options_after_mutation = [False]
+chain_after = [None]
 
 
 def run_dump(st, d, how='path', **options):
@@ -95,6 +96,8 @@ def run_dump(st, d, how='path', **options):
         out = os.path.join(d, 'out.zip')
         step = core.dataflows.dump_to_zip(out, **options)
     links = [core.from_state(st), step]
+    if chain_after[0]:
+        links.append(core.dataflows.dump_to_zip(os.path.join(d, 'chained.zip'), format=chain_after[0]))
     if options_after_mutation[0]:
         def mutate(row):
             # edits the row objects that have already passed the dumper
